@@ -4,7 +4,10 @@
 // of length 0..2, all alphabet strings of length 1..3 and all strings of length 1..2 over the full
 // byte range; random and structured longer inputs; addresses decode iff the reference says they
 // are the canonical text of a version-0 address with a correct checksum (then String() gives the
-// text back). The same address strings are posted to the real /api/v2/address/verify handler.
+// text back). structured.go adds payloads derived from a valid 25-byte serialization (bytes
+// appended / prepended / removed, recomputed checksums, non-zero version) at the byte and text
+// entry points with a one-to-one check. The same address strings are posted to the real
+// /api/v2/address/verify handler.
 package main
 
 import (
@@ -659,9 +662,16 @@ func legAPI() {
 	url := "http://" + srv.Addr() + "/api/v2/address/verify"
 	client := &http.Client{Timeout: 20 * time.Second, Transport: &http.Transport{MaxIdleConnsPerHost: 32}}
 
-	n := r.Pick(4000, 80000)
+	n0 := r.Pick(4000, 80000)
+	n := n0 + n0/4 // the last fifth: texts of payloads derived from a valid serialization (structured.go)
 	shards("api", n, 256, func(i int, c *ctr) {
-		cl, s := genAddrCase(c.g, i)
+		var cl, s string
+		if i < n0 {
+			cl, s = genAddrCase(c.g, i)
+		} else {
+			cl, s = structuredText(c.g, i-n0)
+			c.add("api.struct.case")
+		}
 		if !utf8.ValidString(s) {
 			c.add("api.skipped(not-utf8-cannot-be-json)")
 			return
@@ -720,7 +730,7 @@ func main() {
 	for _, l := range []struct {
 		name string
 		f    func()
-	}{{"exhaustive", legExhaustive}, {"random", legRandom}, {"addresses", legAddresses}, {"api", legAPI}} {
+	}{{"exhaustive", legExhaustive}, {"random", legRandom}, {"addresses", legAddresses}, {"structured", legStructured}, {"api", legAPI}} {
 		t0 := time.Now()
 		l.f()
 		r.Extra("wall_s."+l.name, time.Since(t0).Seconds())
@@ -769,13 +779,31 @@ func main() {
 	fl("btcaddress.accepted", 2000, 200000)
 	fl("btcaddress.rejected:version", 2000, 200000)
 	fl("btcaddress.rejected:checksum", 2000, 200000)
+	// structured leg: every derivation class ran for both families, both entry points refused for
+	// every reason, and the canonical form was the only accepted one in (nearly) every family
+	for _, d := range derivations {
+		fl("struct.case:"+d.class, 5000, 175000)
+	}
+	for _, f := range []string{"sky", "btc"} {
+		fl("struct."+f+".bytes.accepted", 2500, 90000)
+		fl("struct."+f+".text.accepted", 2500, 90000)
+		fl("struct."+f+".must.accepted", 1200, 40000)
+		fl("struct."+f+".must.refused", 20000, 750000)
+		for _, why := range []string{"length", "checksum", "version"} {
+			fl("struct."+f+".bytes.rejected:"+why, 2500, 90000)
+			fl("struct."+f+".text.rejected:"+why, 2500, 90000)
+		}
+	}
+	fl("struct.one-to-one.families", 5000, 175000)
+	r.Floor("struct.degenerate.agree", 8)
+	fl("api.struct.case", 900, 18000)
 	fl("api.accepted", 800, 16000)
 	fl("api.rejected", 1500, 30000)
 	for _, c := range []string{"not-base58", "length", "checksum", "version"} {
 		fl("api.rejected:"+c, 100, 2000)
 	}
 
-	r.Finish("exhaustive over all byte strings of length 0..2, all alphabet strings of length 1..3 and all strings of length 1..2 over the 256 byte values; random byte strings and strings by class (leading zeros/ones, 0xFF runs, single bit, foreign ASCII / non-ASCII / invalid UTF-8 characters, over-long to 1200 characters); address texts built by the reference (valid, leading-zero keys, non-zero version or wrong payload length with a consistent checksum, bit flips) and 12 text mutations of valid addresses; each case is distinct by its bytes and non-trivial because the reference decides its expected outcome (in the thorough tier only every 16th random case is entered in the distinct set, a conservative count)",
+	r.Finish("exhaustive over all byte strings of length 0..2, all alphabet strings of length 1..3 and all strings of length 1..2 over the 256 byte values; random byte strings and strings by class (leading zeros/ones, 0xFF runs, single bit, foreign ASCII / non-ASCII / invalid UTF-8 characters, over-long to 1200 characters); address texts built by the reference (valid, leading-zero keys, non-zero version or wrong payload length with a consistent checksum, bit flips) and 12 text mutations of valid addresses; structure-aware payloads derived from the reference's valid 25-byte serialization of a random key (bytes appended / prepended incl. zero bytes / removed, longer or shorter body with recomputed checksum, checksum moved to the end, non-zero version with recomputed or stale checksum) given as bytes to AddressFromBytes / BitcoinAddressFromBytes and as reference-encoded text to the Decode and Must entry points, with a one-to-one check (only the canonical text and payload of a key may be accepted); each case is distinct by its bytes and non-trivial because the reference decides its expected outcome (in the thorough tier only every 16th random case is entered in the distinct set, a conservative count)",
 		"the empty string is treated as invalid for Decode, as the package documents (ErrInvalidString), although the big-integer definition would map it to the empty byte string",
 		"strings that are not valid UTF-8 cannot be carried in a JSON request unchanged and are skipped in the API leg only",
 		"lib/refb58 (math/big repeated division) is assumed correct; it is checked against published vectors in lib/refbip tests")
